@@ -1106,6 +1106,8 @@ pub(crate) fn fill_fd(_t: &AsyncFd, r: &mut Res, a: &mut Args, s: &mut Submissio
     s.0.opcode = TEST_OPCODE;
     s.0.len = r.marker;
     s.0.__bindgen_anon_1 = libc::io_uring_sqe__bindgen_ty_1 { off: a.v };
+    // the encoder's own request flags (real encoders set IOSQE_BUFFER_SELECT, IOSQE_ASYNC, ...): any byte without FIXED_FILE
+    s.0.flags = r.payload[0] & !libc::IOSQE_FIXED_FILE;
 }
 pub(crate) fn map_ok_fd(_t: &AsyncFd, r: Res, ret: OpReturn) -> u32 {
     std::mem::forget(r);
@@ -1121,7 +1123,8 @@ pub(crate) fn fb_fd(_t: &AsyncFd, r: Res, _a: &mut Args, err: io::Error) -> io::
 fn c13_fd_target_flags() {
     let marker: u32 = kani::any();
     let a: u64 = kani::any();
-    let mut s: SState = State::new(Res { marker, payload: kani::any() }, args(a));
+    let own_flags: u8 = kani::any();
+    let mut s: SState = State::new(Res { marker, payload: [own_flags, 0, 0, 0, 0, 0, 0, 0] }, args(a));
     let mut ring = FakeSq::<2>::new(0, 0, 0);
     let subs = subs_of(ring.shared(2, false, false));
     let direct: bool = kani::any();
@@ -1137,9 +1140,10 @@ fn c13_fd_target_flags() {
     e.0.len = marker;
     e.0.__bindgen_anon_1 = libc::io_uring_sqe__bindgen_ty_1 { off: a };
     e.0.user_data = s.user_data();
-    e.0.flags = if direct { libc::IOSQE_FIXED_FILE } else { 0 };
-    assert!(sqe_bytes(&ring.sqes[0]) == sqe_bytes(&e), "FIXED_FILE iff the descriptor is direct; nothing else added");
+    e.0.flags = (own_flags & !libc::IOSQE_FIXED_FILE) | if direct { libc::IOSQE_FIXED_FILE } else { 0 };
+    assert!(sqe_bytes(&ring.sqes[0]) == sqe_bytes(&e), "FIXED_FILE iff the descriptor is direct; nothing else added, none of the encoder's own flags lost");
     std::mem::forget(s);
+    kani::cover!(direct && own_flags & libc::IOSQE_BUFFER_SELECT != 0, "direct descriptor, buffer-select request");
     kani::cover!(direct, "direct");
     kani::cover!(!direct, "regular");
 }
